@@ -92,6 +92,9 @@ type family struct {
 	// lateNames: after a first render, ImportName may be called for every referenced path whose
 	// name is known (a registered path keeps the name it was rendered under)
 	lateNames bool
+	// lateAlias: after a first render, ImportAlias(p, first alias of the pool) may be called for every
+	// referenced path (a registered path keeps the name it was rendered under)
+	lateAlias bool
 	// oneDict: the references may also be put, all together, into one Dict (as values / as keys)
 	oneDict bool
 }
@@ -252,6 +255,15 @@ func (fam *family) scenario(c *explore.Ctx) *imp.World {
 			if _, ok := fam.names[p]; ok && !w.Dot[p] {
 				w.F.ImportName(p, w.TrueName(p))
 				w.Log = append(w.Log, fmt.Sprintf("ImportName(%q,%q) after the render", p, w.TrueName(p)))
+			}
+		}
+	}
+	if fam.lateAlias && len(fam.aliases) > 0 && c.Bool() {
+		w.MidRender()
+		for _, p := range distinct {
+			if !w.Dot[p] && p != "C" {
+				w.F.ImportAlias(p, fam.aliases[0])
+				w.Log = append(w.Log, fmt.Sprintf("ImportAlias(%q,%q) after the render", p, fam.aliases[0]))
 			}
 		}
 	}
@@ -439,6 +451,7 @@ func (ic *impCheck) run(r *ev.Recorder) {
 	}
 	if ic.sys != nil {
 		res := statespace.Search(statespace.System{
+			Tick:   r.Tick,
 			NumOps: len(ic.sys.ops), MaxDepth: ic.bfsDepth[ti], Stop: r.Expired,
 			Step: func(hist []int) (string, bool) {
 				w := ic.sys.build(hist)
